@@ -36,11 +36,18 @@ BfsKeySets == << {KAB, KAD}, {KA, KAB2}, {KAB, KABC, KAB2}, {KA, KAD, KXYZ} >>
 
 Init == /\ st = Empty
         /\ now = T0
-        /\ keys \in (IF Emit THEN {KeyChoices[RandomElement(1..Len(KeyChoices))]} ELSE {BfsKeySets[BfsKeys]})
+        /\ keys \in (IF Emit THEN {{}} ELSE {BfsKeySets[BfsKeys]})
         /\ hist = <<>>
         /\ done = FALSE
-        /\ opt \in (IF Emit THEN {OptChoices[RandomElement(1..Len(OptChoices))]}
+        /\ opt \in (IF Emit THEN {[k |-> "unset", x |-> 0]}
                     ELSE {[k |-> BfsOpt, x |-> IF BfsOpt \in {"abs", "rel"} THEN 3600 ELSE 0]})
+
+\* emitted histories: key set and interface option are drawn in the first step of every behaviour (TLC evaluates Init
+\* once per simulation run: drawn there, all histories of a run would share them)
+Choose == /\ Emit /\ opt.k = "unset"
+          /\ keys' = KeyChoices[RandomElement(1..Len(KeyChoices))]
+          /\ opt' = OptChoices[RandomElement(1..Len(OptChoices))]
+          /\ UNCHANGED <<st, now, hist, done>>
 
 \* ---------------------------------------------------------------- random operations (Emit = TRUE)
 \* every component is drawn separately (the product sets are far too large to enumerate); the dummy
@@ -125,7 +132,7 @@ BfsOps(K) ==
 
 Pick(S) == IF Emit THEN {RandomElement(S)} ELSE S
 
-DoOp == /\ ~done /\ Len(hist) < MaxLen
+DoOp == /\ ~done /\ Len(hist) < MaxLen /\ opt.k # "unset"
         /\ \E o \in (IF Emit THEN {RandOp(keys, 0)} ELSE BfsOps(keys)) :
            \E x \in Pick(StepAt(st, OptOf(Concretize(o, now)), now)) :
               /\ st' = x.st
@@ -138,7 +145,7 @@ Finish == /\ Emit /\ Len(hist) = MaxLen /\ ~done
           /\ PrintT(<<"@@", ToJson([keys |-> keys, fs |-> SegFree(keys), timed |-> Timed, opt |-> opt, steps |-> hist])>>)
           /\ UNCHANGED <<st, now, keys, hist, opt>>
 
-Next == DoOp \/ Finish
+Next == Choose \/ DoOp \/ Finish
 Spec == Init /\ [][Next]_vars
 
 \* ---------------------------------------------------------------- invariants (Emit = FALSE)
